@@ -4,6 +4,7 @@ use crate::report::Report;
 pub mod c02;
 pub mod c03;
 pub mod c04;
+pub mod c05;
 pub mod c09;
 pub mod common;
 pub mod xfer;
@@ -15,6 +16,7 @@ pub fn dispatch(args: &Args) -> Report {
         "C02" => c02::run(args),
         "C03" => c03::run(args),
         "C04" => c04::run(args),
+        "C05" => c05::run(args),
         "C09" => c09::run(args),
         "C18" => c18::run(args),
         "C20" => c20::run(args),
